@@ -725,6 +725,10 @@ func runRG(dir string, seed uint64, n int) {
 				if rng.Chance(0.25) {
 					cnt = 1 + rng.Intn(3*max)
 				}
+				if rng.Chance(0.03) {
+					cnt = 0 // an empty batch
+					o.Count("rg.empty_batches")
+				}
 				ids := []int{}
 				for j := 0; j < cnt; j++ {
 					g.nextPid++
